@@ -9,7 +9,8 @@ from vmon import world as W
 
 
 class Forcing:
-    def __init__(self, modules, flow=None, w=None, record=True, **kwargs):
+    def __init__(self, modules, flow=None, w=None, record=True, scalar=None, **kwargs):
+        self.scalar = scalar  # temp = a + b*x + c*y + e*t (t = seconds after start), valid at the time of update()
         self.modules = modules
         self.flow = flow or dict(kind="zero")
         self.w = w
@@ -26,6 +27,10 @@ class Forcing:
         self.variables["u"], self.variables["v"] = W.flow(self.flow, st.X, st.Y, step * self.dt)
         if self.w is not None:
             self.variables["w"] = np.full(len(st.X), float(self.w))
+        if self.scalar is not None:
+            s = self.scalar
+            self.variables["temp"] = s["a"] + s["b"] * st.X + s["c"] * st.Y + s["e"] * step * self.dt
+            st["temp"] = self.variables["temp"]
 
     def velocity(self, X, Y, Z, fractional_step=0, method="bilinear"):
         step = int(self.modules["time"].step)
